@@ -128,7 +128,8 @@ def parse_trace(tr):
                 seqs = [tuple(int(x) for x in q.split(":")) for q in s.rstrip(")").split(",") if q]
             v = [int(x) for x in b.split("/")]
             blocks.append(dict(type=v[0], last=v[1], csize=v[2], rsize=v[3], litmode=v[4], litsize=v[5],
-                               modes=v[6], nseq=v[7], seqs=seqs))
+                               modes=v[6], nseq=v[7], nbseq_bytes=v[8] if len(v) > 8 else 0,
+                               lasttable=v[9] if len(v) > 9 else 0, seqs=seqs))
         frames.append(dict(kind="zstd", window=int(m.group(1)), single=int(m.group(2)), checksum=int(m.group(3)),
                            dictid=int(m.group(4)), fcs=None if m.group(5) == "-" else int(m.group(5)),
                            hsize=int(m.group(6)), desc=int(m.group(7)), csize=int(m.group(8)), n=int(m.group(9)),
